@@ -234,6 +234,20 @@ Theorem C12_packetized_transport_perfect :
 Proof. exact packetized_transport_perfect. Qed.
 Print Assumptions C12_packetized_transport_perfect.
 
+(* with a fair reader (every Read() finds bytes available, as many calls as the stream has bytes) the end of the
+   stream IS reached: every accepted packet is handed over *)
+Theorem C12_packetized_transport_delivers_all :
+  forall mtu wops wst out wrs script rst rest rrs,
+    mtu < two32 -> wops_nonempty wops ->
+    Forall (fun x => mtu <= fst (fst x) /\ 0 < snd (fst x) /\ 0 < snd x) script ->
+    (length out <= length script)%nat ->
+    pwrites mtu pw_init wops = (wst, out, wrs) ->
+    pw_buffered wst = false ->
+    preads mtu pr_init out script = (rst, rest, rrs) ->
+    handed rrs = taken wops wrs /\ rest = [] /\ Forall (fun r => r <> None) rrs.
+Proof. exact packetized_transport_delivers_all. Qed.
+Print Assumptions C12_packetized_transport_delivers_all.
+
 Example C12_packetized_nontrivial :
   let wops := [WWrite [Byte.x01; Byte.x02; Byte.x03] 2 0; WWrite [Byte.x09] 1 9; WWrite [Byte.x09] 9 9; WFlush 99] in
   let script := [(8, 3, 9); (8, 0, 0); (8, 1, 1); (8, 9, 2); (8, 9, 9); (8, 9, 9)] in
@@ -276,6 +290,24 @@ Theorem C12_tunnel_over_packetized_complete :
       /\ snd (recv_all rc t0 (map (pair a) (handed rrs))) = map (pair a) (filter (fits rc) done).
 Proof. exact tunnel_over_packetized_complete. Qed.
 Print Assumptions C12_tunnel_over_packetized_complete.
+
+Theorem C12_tunnel_over_packetized_fair :
+  forall rc c a id0 ops st pkts t0 mtu wops wst out wrs script rst rest rrs,
+    scfg_ok c -> compat c rc -> id0 < two32 -> no_setid ops ->
+    N.of_nat (length (added ops)) <= two32 ->
+    Forall (fun m => lenN m < two32) (added ops) ->
+    srun c (s_init id0) ops = (st, pkts) -> s_pkt st = [] ->
+    tbl_wf t0 -> tbl_find a t0 = None ->
+    mtu < two32 -> wops_nonempty wops ->
+    Forall (fun x => mtu <= fst (fst x) /\ 0 < snd (fst x) /\ 0 < snd x) script ->
+    (length out <= length script)%nat ->
+    pwrites mtu pw_init wops = (wst, out, wrs) -> taken wops wrs = pkts -> pw_buffered wst = false ->
+    preads mtu pr_init out script = (rst, rest, rrs) ->
+    exists done,
+      added ops = done ++ s_q st
+      /\ snd (recv_all rc t0 (map (pair a) (handed rrs))) = map (pair a) (filter (fits rc) done).
+Proof. exact tunnel_over_packetized_fair. Qed.
+Print Assumptions C12_tunnel_over_packetized_fair.
 
 Theorem C12_mini_over_packetized_complete :
   forall (deflate : N -> list Byte.byte -> option (list Byte.byte))
